@@ -379,7 +379,7 @@ def run_prop(prop, tier, rule):
     ctx.traces += len(recs) * len(builds) * 2
     ctx.log(f"replayed {len(recs)} behaviours ({len(rows)} steps) x {len(builds)} builds x 2 allocators; "
             f"failures so far {len(ctx.fail)}; drift (model prediction vs code, not a verdict): {drift}")
-    ledgers += lifecycle(ctx, prop, builds, 6 if q else 200, 25 if q else 40, 3 if q else 4)
+    ledgers += lifecycle(ctx, prop, builds, 6 if q else 30, 25 if q else 40, 3 if q else 4)
     if prop == "C13":
         ledgers += document_histories(ctx, builds)
         for path, matched, total in validate_ledgers(ctx, ledgers):
